@@ -236,3 +236,144 @@ Section RW.
     inversion W; subst; try congruence; unfold wf_thread, entry; cbn; repeat split; auto.
     destruct m; try congruence; repeat split; auto; destruct strict; auto; specialize (H eq_refl); congruence.
   Qed.
+
+  Lemma ghost_idle_none th :
+    tmode th = MIdle -> own_range_pc (tpc th) = (O, O) -> rd_pc (tpc th) = None ->
+    (forall j, ownz th j = 0) /\ (forall j, rdz th j = 0).
+  Proof.
+    intros Hm Ho Hr. split; intros j.
+    - unfold ownz, own_range. rewrite Hm, Ho. cbn. destruct (j <? 0)%nat eqn:E; [apply Nat.ltb_lt in E; lia | reflexivity].
+    - unfold rdz, rd. rewrite Hm, Hr. reflexivity.
+  Qed.
+
+  Lemma ghost_held th th' :
+    tmode th' = tmode th -> tmode th <> MIdle ->
+    (forall j, ownz th' j = ownz th j) /\ (forall j, rdz th' j = rdz th j) /\ drain_upto th' = drain_upto th.
+  Proof.
+    intros E D. unfold ownz, own_range, rdz, rd, drain_upto. rewrite E. destruct (tmode th); try congruence; repeat split; reflexivity.
+  Qed.
+
+  (* ---------- what one step of one thread does to the word it accesses and to its own ghost state ----------
+     The word of the accessed slot i0 is  w = WB * (A + own th i0) + (B + cnt th i0)  where A, B are the contributions of
+     all OTHER threads (A = 1 iff another thread owns the writer bit of i0, B = number of other readers counted). *)
+  Definition step_ok (th : thread) (w A B : Z) (w' : Z) (th' : thread) (wake : bool) : Prop :=
+    let i0 := pslot (tpc th) in
+    wf_thread th' /\
+    (forall j, j <> i0 -> ownz th' j = ownz th j /\ rdz th' j = rdz th j) /\
+    w' = WB * (A + ownz th' i0) + (B + rdz th' i0) /\
+    A + ownz th' i0 <= 1 /\
+    (forall j, (j < drain_upto th')%nat -> (j < drain_upto th)%nat \/ (j = i0 /\ B = 0)) /\
+    (forall j, tmode th' = MR j -> tmode th = MR j \/ (j = i0 /\ A = 0)) /\
+    (forall i k, tpc th' = PBlocked i k -> i = i0 /\ w' <> WB) /\
+    (forall i k, tpc th' = PRelWake i k -> i = i0) /\
+    wake = is_relwake_pc (tpc th) /\
+    (w' = WB -> w = WB \/ is_relwake_pc (tpc th') = true \/ A = 0).
+
+  Ltac nat_cases := repeat match goal with
+    | |- context [(?a <=? ?b)%nat] => destruct (Nat.leb_spec a b)
+    | |- context [(?a <? ?b)%nat] => destruct (Nat.ltb_spec a b)
+    | |- context [(?a =? ?b)%nat] => destruct (Nat.eqb_spec a b)
+    | H : context [(?a <=? ?b)%nat] |- _ => destruct (Nat.leb_spec a b)
+    | H : context [(?a <? ?b)%nat] |- _ => destruct (Nat.ltb_spec a b)
+    | H : context [(?a =? ?b)%nat] |- _ => destruct (Nat.eqb_spec a b)
+    end.
+  Ltac fin := unfold ownz, own_range, rdz, rd, drain_upto, goto, acquire, logr, skip, try_failed, spin_or_and in *;
+              cbn [tpc tmode prog res fst snd own_range_pc rd_pc pslot andb is_relwake_pc is_blocked_pc] in *;
+              rewrite ?WB_val in *; nat_cases; cbn [andb] in *; try lia; try congruence; auto;
+              try solve [match goal with H : MR _ = MR _ |- _ => injection H as <-; right; split; [reflexivity | lia] end].
+  (* replace [next N t] (t idle, remaining script W0) by an abstract thread with the facts of next_idle *)
+  Ltac use_next_idle W0 :=
+    match goal with |- context [next N ?t] =>
+      let Wf := fresh "Wf" in let Hm := fresh "Hm" in let Ho := fresh "Ho" in let Hr := fresh "Hr" in
+      let Hd := fresh "Hd" in let Hb := fresh "Hb" in let Hk := fresh "Hk" in let Go := fresh "Go" in let Gr := fresh "Gr" in
+      destruct (next_idle t eq_refl W0) as (Wf & Hm & Ho & Hr & Hd & Hb & Hk);
+      destruct (ghost_idle_none _ Hm Ho Hr) as [Go Gr];
+      generalize dependent (next N t); intros
+    end.
+  Ltac ghost_rw := repeat match goal with
+    | H : forall j : nat, ownz ?t j = 0 |- context [ownz ?t _] => rewrite H
+    | H : forall j : nat, rdz ?t j = 0 |- context [rdz ?t _] => rewrite H
+    | H : drain_upto ?t = _ |- context [drain_upto ?t] => rewrite H
+    | H : tmode ?t = _ |- context [tmode ?t] => rewrite H
+    | H : is_relwake_pc (tpc ?t) = _ |- context [is_relwake_pc (tpc ?t)] => rewrite H
+    | X : tpc ?t = _, Y : is_blocked_pc (tpc ?t) = false |- _ => rewrite X in Y; discriminate Y
+    | X : tpc ?t = _, Y : is_relwake_pc (tpc ?t) = false |- _ => rewrite X in Y; discriminate Y
+    end.
+  Ltac leaf := unfold step_ok; cbn [tpc pslot is_relwake_pc]; ghost_rw; repeat split; intros; ghost_rw; fin.
+  Ltac ztest E := match type of E with
+    | context [?a <? ?b] => let e := fresh "Ez" in destruct (a <? b) eqn:e; [apply Z.ltb_lt in e | apply Z.ltb_ge in e]
+    | context [?a =? ?b] => let e := fresh "Ez" in destruct (a =? b) eqn:e; [apply Z.eqb_eq in e | apply Z.eqb_neq in e]
+    | context [(?a <? ?b)%nat] => let e := fresh "En" in destruct (a <? b)%nat eqn:e; [apply Nat.ltb_lt in e | apply Nat.ltb_ge in e]
+    end.
+
+  Lemma tstep_spec th w A B w' th' site wake :
+    wf_thread th ->
+    w = WB * (A + ownz th (pslot (tpc th))) + (B + rdz th (pslot (tpc th))) ->
+    0 <= A -> A + ownz th (pslot (tpc th)) <= 1 -> 0 <= B -> B + 1 < 2147483648 ->
+    tstep N K w th = Some (w', th', site, wake) ->
+    step_ok th w A B w' th' wake.
+  Proof.
+    destruct th as [p pr rs m]. unfold wf_thread; cbn [tmode tpc prog]. intros W Hw HA HA1 HB HB1 E.
+    destruct m.
+    - (* idle *) destruct p; unfold tstep in E; cbn [tpc] in E.
+    + injection E as <- <- _ <-. use_next_idle W. leaf.
+    + destruct k; [ | | contradiction].
+      * destruct W as [Hi W]. unfold f_or in E. repeat ztest E; injection E as <- <- _ <-; leaf.
+      * destruct W as (-> & HN & W). unfold f_or in E. repeat ztest E; injection E as <- <- _ <-; leaf.
+    + (* PWaitLoad *) destruct W as (Hi & Hk & W). unfold drained in E. repeat ztest E; injection E as <- <- _ <-.
+      * destruct k; cbn in Hk; leaf.
+      * destruct k; cbn in Hk; leaf.
+      * leaf.
+    + (* PWaitFutex *) destruct W as (Hi & Hk & W & Hc). repeat ztest E; injection E as <- <- _ <-; leaf.
+    + discriminate.
+    + (* PWoken *) destruct W as (Hi & Hk & W). injection E as <- <- _ <-; leaf.
+    + (* PUpSub *) destruct W as (HN & W). injection E as <- <- _ <-.
+      rewrite sub32_ok by fin. leaf.
+    + (* PTryOr *) destruct W as (HN & W & Ws). unfold f_or, try_failed in E. repeat ztest E; injection E as <- <- _ <-.
+      * use_next_idle Ws. leaf.
+      * leaf.
+      * destruct K; leaf.
+    + (* PTrySpin *) destruct W as (HN & W & Ws). repeat ztest E; injection E as <- <- _ <-.
+      * leaf.
+      * destruct (Nat.pred j); leaf.
+    + (* PTryAnd *) destruct W as (HN & W & Ws). unfold f_and, try_failed in E. repeat ztest E; injection E as <- <- _ <-; use_next_idle Ws; leaf.
+    + (* PDTryOr *) destruct W as (Hi & W & Ws). unfold f_or, try_failed in E. repeat ztest E; injection E as <- <- _ <-.
+      * destruct i; [use_next_idle Ws; leaf | leaf].
+      * leaf.
+      * leaf.
+    + (* PDTryRb *) destruct W as (Hj & Hi & Ws). unfold f_and, try_failed in E. repeat ztest E; injection E as <- <- _ <-; try (use_next_idle Ws); leaf.
+    + (* PUnlockAnd *) destruct k.
+      * destruct W as (Hi & W). unfold f_and in E. repeat ztest E; injection E as <- <- _ <-; try (use_next_idle W); leaf.
+      * destruct W as (-> & HN & W). unfold f_and in E. repeat ztest E; injection E as <- <- _ <-; leaf.
+    + (* PLsAdd *) destruct W as (Hi & W). repeat ztest E; injection E as <- <- _ <-; rewrite add32_ok by fin; leaf.
+    + (* PLsSpin *) destruct W as (Hi & W). repeat ztest E; injection E as <- <- _ <-; leaf.
+    + (* PTlsAdd *) destruct W as (Hi & W & Ws). repeat ztest E; injection E as <- <- _ <-; rewrite add32_ok by fin; leaf.
+    + (* PRelSub *) destruct W as (Hi & W). unfold rel_done in E. repeat ztest E; injection E as <- <- _ <-; rewrite sub32_ok by fin.
+      * leaf.
+      * destruct k; try (use_next_idle W); leaf.
+    + (* PRelWake *) destruct W as (Hi & W). unfold rel_done in E. injection E as <- <- _ <-. destruct k; try (use_next_idle W); leaf.
+    + (* PDownAdd *) destruct W as (HN & W). injection E as <- <- _ <-. rewrite add32_ok by fin. leaf.
+    + contradiction.
+    + contradiction.
+    + discriminate.
+    - (* write mode *) destruct W as [_ W]. destruct p; try contradiction; unfold tstep in E; cbn [tpc tmode] in E.
+      + injection E as <- <- _ <-.
+        match goal with |- context [next N ?t] =>
+          destruct (next_held t _ eq_refl ltac:(discriminate) I W) as (Wf & Hm & Hb & Hk);
+          destruct (ghost_held t (next N t) Hm ltac:(discriminate)) as (Go & Gr & Gd);
+          generalize dependent (next N t); intros end.
+        unfold step_ok; cbn [tpc pslot is_relwake_pc]; repeat split; intros; rewrite ?Go, ?Gr, ?Gd, ?Hk in *; ghost_rw; fin.
+      + injection E as <- <- _ <-. inversion W; subst; cbn [entry']; leaf.
+      + destruct W; discriminate.
+    - (* read mode *) destruct W as [Hi W]. destruct p; try contradiction; unfold tstep in E; cbn [tpc tmode] in E.
+      + injection E as <- <- _ <-.
+        match goal with |- context [next N ?t] =>
+          destruct (next_held t _ eq_refl ltac:(discriminate) Hi W) as (Wf & Hm & Hb & Hk);
+          destruct (ghost_held t (next N t) Hm ltac:(discriminate)) as (Go & Gr & Gd);
+          generalize dependent (next N t); intros end.
+        unfold step_ok; cbn [tpc pslot is_relwake_pc]; repeat split; intros; rewrite ?Go, ?Gr, ?Gd, ?Hk in *; ghost_rw; fin.
+        all: left; cbn in Hm; congruence.
+      + injection E as <- <- _ <-. inversion W; subst; cbn [entry']; leaf.
+      + discriminate E.
+  Qed.
+End RW.
